@@ -18,7 +18,7 @@ ASSUMPTIONS = [
 OUTSIDE = ['more than 6 labels', 'degree > 5', 'float rounding', 'models with stale bookkeeping (see C14)', 'non-numeric penalties (see C16)']
 BOUNDS = {
     'quick': {'boolean': 'n=4: 3 low-degree + 4 high-degree monomials, deg 2 and 3; n=5 deg 3 with 4 monomials', 'spin': 'n=3: 3 low-degree + the 3-body term',
-              'lam': ['None', 'symbolic constant', 'abs', '1+abs'], 'pairs': ['None', 'one pair', 'pair with unknown label']},
+              'lam': ['None', 'symbolic constant', 'abs', '1+abs'], 'pairs': ['None', 'one pair', 'pair with unknown label'], 'mapping': 'first-appearance, and rotated with set_mapping (5 jobs)'},
     'thorough': {'boolean': 'n=4: 3 low + all 5 monomials of degree 3-4, deg 2,3; n=5: 6 monomials degree 3-5, deg 2,3,4; n=6: 5 monomials',
                  'spin': 'n=3 (4 monomials) and n=4 (3 low + 4-body term; two high-degree monomials without low-degree terms)',
                  'lam': ['None', 'symbolic constant', 'abs', '1+abs'], 'pairs': ['None', 'every single pair of the first term', 'pair with unknown label']},
